@@ -44,6 +44,23 @@ def record_class(rid, rcls, cmds, bitnames):
     from dali.frame import BackwardFrame, BackwardFrameError, Frame, ForwardFrame
     outcomes = [None] + [BackwardFrame(v) for v in range(256)] + [BackwardFrameError(v) for v in range(256)]
     cells = []
+    # a caller that edits what it was handed: lists returned by an earlier response must not be what a later one
+    # (same class, same byte) reports -- every mutable object a response returns is scribbled on in a first pass
+    for arg in outcomes:
+        try:
+            r0 = rcls(arg)
+            for attr in ("status", "value"):
+                try:
+                    v0 = getattr(r0, attr)
+                except Exception:
+                    continue
+                if isinstance(v0, list):
+                    v0.clear()
+                    v0.append("#scribble")
+                elif isinstance(v0, (dict, set)):
+                    v0.clear()
+        except Exception:
+            pass
     for arg in outcomes:
         r = rcls(arg)
         try:
